@@ -38,41 +38,47 @@ def run(case: dict, lean: Lean) -> Outcome:
     vals = [f"v{e}" for e in case["entities"]]
     lists = [[f"t{e}_{j}" for j in range(m)] for e, m in zip(case["entities"], case["list_lens"])]
     failed = []; keys = []; detail = {}; classes = []
-    # ---- scalar
-    sf = case.get("scalar_form", "arrays")
-    if sf == "series": b.add_scalar_attribute("item", "title", pd.Series(vals, index=pd.Index(ents, dtype=object if case["str_ids"] else "int64"), dtype=object))
-    elif sf == "frame": b.add_scalar_attribute("item", "title", pd.DataFrame({"item_id": pd.Series(ents, dtype=object if case["str_ids"] else "int64"), "title": pd.Series(vals, dtype=object)}))
-    else: b.add_scalar_attribute("item", "title", ents, vals)
-    # ---- list
-    lf = case.get("list_form", "python"); lead = []
-    list_nulls = set()
-    if ents:
-        if lf == "arrow": b.add_list_attribute("item", "tags", ents, pa.array(lists, type=pa.list_(pa.string())))
-        elif lf == "sliced":
-            lead_lists = [[f"lead{j}"] for j in range(case.get("list_lead", 1))]; lead = [x for l in lead_lists for x in l]
-            b.add_list_attribute("item", "tags", ents, pa.array(lead_lists + lists, type=pa.list_(pa.string())).slice(len(lead_lists)))
-        elif lf == "nulls":
-            list_nulls = {i for i in range(len(ents)) if i % 3 == 1}
-            b.add_list_attribute("item", "tags", ents, pa.array([None if i in list_nulls else l for i, l in enumerate(lists)], type=pa.list_(pa.string())))
-        else: b.add_list_attribute("item", "tags", ents, lists)
-    # ---- dense vector
-    vents_raw = case.get("vec_entities", []); vents = [conv(x) for x in vents_raw]; vf = case.get("vec_form", "numpy")
-    vnull = {case.get("vec_null", 0) % len(vents)} if (vf == "arrow-null" and vents) else set()
-    names = ["a", "b", "c"] if case.get("dim_names") else None
-    vec_added = False
-    if vents:
-        if vf == "numpy": data = np.array([_vec(e) for e in vents_raw], dtype=np.float64)
-        else: data = pa.array([None if i in vnull else _vec(e) for i, e in enumerate(vents_raw)], type=pa.list_(pa.float64(), DIM))
-        b.add_vector_attribute("item", "emb", vents, data, dim_names=names); vec_added = True
-    # ---- sparse vector
-    sents_raw = case.get("sp_entities", []); sents = [conv(x) for x in sents_raw]
-    if sents:
-        mat = np.zeros((len(sents), 4)); [mat.__setitem__((i, c), v) for i, e in enumerate(sents_raw) for c, v in _sprow(e).items()]
-        b.add_vector_attribute("item", "sp", sents, sps.csr_array(mat), dim_names=["w", "x", "y", "z"] if names else None)
-    # ---- entities added after the attributes
-    late = [conv(x) for x in case.get("late", [])]
-    if late: b.add_entities("item", late); classes.append("entities added after the attributes")
-    ds = b.build(); vocab = list(ds.items.ids()); n = len(vocab)
+    try:          # a failure of the implementation while the attributes are added is an outcome of the case
+        # ---- scalar
+        sf = case.get("scalar_form", "arrays")
+        if sf == "series": b.add_scalar_attribute("item", "title", pd.Series(vals, index=pd.Index(ents, dtype=object if case["str_ids"] else "int64"), dtype=object))
+        elif sf == "frame": b.add_scalar_attribute("item", "title", pd.DataFrame({"item_id": pd.Series(ents, dtype=object if case["str_ids"] else "int64"), "title": pd.Series(vals, dtype=object)}))
+        else: b.add_scalar_attribute("item", "title", ents, vals)
+        # ---- list
+        lf = case.get("list_form", "python"); lead = []
+        list_nulls = set()
+        if ents:
+            if lf == "arrow": b.add_list_attribute("item", "tags", ents, pa.array(lists, type=pa.list_(pa.string())))
+            elif lf == "sliced":
+                lead_lists = [[f"lead{j}"] for j in range(case.get("list_lead", 1))]; lead = [x for l in lead_lists for x in l]
+                b.add_list_attribute("item", "tags", ents, pa.array(lead_lists + lists, type=pa.list_(pa.string())).slice(len(lead_lists)))
+            elif lf == "nulls":
+                list_nulls = {i for i in range(len(ents)) if i % 3 == 1}
+                b.add_list_attribute("item", "tags", ents, pa.array([None if i in list_nulls else l for i, l in enumerate(lists)], type=pa.list_(pa.string())))
+            else: b.add_list_attribute("item", "tags", ents, lists)
+        # ---- dense vector
+        vents_raw = case.get("vec_entities", []); vents = [conv(x) for x in vents_raw]; vf = case.get("vec_form", "numpy")
+        vnull = {case.get("vec_null", 0) % len(vents)} if (vf == "arrow-null" and vents) else set()
+        names = ["a", "b", "c"] if case.get("dim_names") else None
+        vec_added = False
+        if vents:
+            if vf == "numpy": data = np.array([_vec(e) for e in vents_raw], dtype=np.float64)
+            else: data = pa.array([None if i in vnull else _vec(e) for i, e in enumerate(vents_raw)], type=pa.list_(pa.float64(), DIM))
+            b.add_vector_attribute("item", "emb", vents, data, dim_names=names); vec_added = True
+        # ---- sparse vector
+        sents_raw = case.get("sp_entities", []); sents = [conv(x) for x in sents_raw]
+        if sents:
+            mat = np.zeros((len(sents), 4)); [mat.__setitem__((i, c), v) for i, e in enumerate(sents_raw) for c, v in _sprow(e).items()]
+            b.add_vector_attribute("item", "sp", sents, sps.csr_array(mat), dim_names=["w", "x", "y", "z"] if names else None)
+        # ---- entities added after the attributes
+        late = [conv(x) for x in case.get("late", [])]
+        if late: b.add_entities("item", late); classes.append("entities added after the attributes")
+        ds = b.build()
+    except Exception as ex:
+        import traceback
+        where = [f.name for f in traceback.extract_tb(ex.__traceback__) if 'lenskit' in f.filename][-1:] or ['?']
+        return Outcome(False, False, ('adding the attributes raised',), {'failed': [f'adding the attributes raised {type(ex).__name__} in {where[0]}: {str(ex)[:80]}']}, None)
+    vocab = list(ds.items.ids()); n = len(vocab)
     es = ds.entities("item")
     num = {e: vocab.index(e) for e in vocab}
     sel = [conv(x) for x in case.get("select", [])]; selnums = [num[e] for e in sel]
